@@ -158,30 +158,35 @@ def bddToMdd_statement : Prop :=
     ReorderInv ext mb → DvarsOK mb.tbl dvars →
     bddToMdd dvars lev mb = (.ok out, mb') → B2MOK ext dvars mb out mb'
 
-/-- C15, conversion part, what is proved: the full statement for managers in which dynamic
-reordering is not enabled (`_last_len is None`, the default; the specification of `cofactor`,
-C04, is proved under that hypothesis).  Built from `collectGarbage_spec` (C06),
-`sortToOrder_exact` (C07: `reorder(bdd, order)` reaches exactly the requested order and keeps
-every held reference's function of the names), `cofactor_spec` (C04), canonicity ("a node depends
-on its own level": the cofactor w.r.t. all bits of a zone lies in a later zone), and the MDD side
+/-- C15, conversion part: the full statement, for ANY setting of dynamic reordering.  Built from
+`collectGarbage_spec` (C06), `sortToOrder_exact` (C07: `reorder(bdd, order)` reaches exactly the
+requested order and keeps every held reference's function of the names), the path-following
+behaviour of `cofactor` when every level of a zone is assigned (`cofactor_path`: for any
+`_last_len` / reordering context it creates nothing, requests no reordering and leaves the
+manager as it was — so the zones cannot be disturbed mid-loop), canonicity ("a node depends on its
+own level": the cofactor w.r.t. all bits of a zone lies in a later zone), and the MDD side
 (`find_or_add` specification). -/
+theorem C15_bddToMdd : bddToMdd_statement :=
+  fun ext mb dvars lev out mb' h hd hr => bddToMdd_spec ext mb h dvars hd lev out mb' hr
+
+/-- (name kept from the previous round) -/
 theorem C15_bddToMdd_partial_off (ext : Nat → Nat) (mb : Mgr) (h : ReorderInv ext mb)
-    (hoff : mb.lastLen = none) (dvars : List MVar) (hd : DvarsOK mb.tbl dvars)
+    (dvars : List MVar) (hd : DvarsOK mb.tbl dvars)
     (lev : Option (List Nat)) (out : B2MOut) (mb' : Mgr)
     (hr : bddToMdd dvars lev mb = (.ok out, mb')) : B2MOK ext dvars mb out mb' :=
-  bddToMdd_spec ext mb h hoff dvars hd lev out mb' hr
+  bddToMdd_spec ext mb h dvars hd lev out mb' hr
 
 /-- the same, spelled out for one held reference `s` (either sign): it has an image, and
 `flip(umap[|s|], s)` evaluates on every valid integer assignment to what the BDD reference — as
 it was BEFORE the call, by variable names — evaluates to on the encoded bits -/
 theorem C15_bddToMdd_held (ext : Nat → Nat) (mb : Mgr) (h : ReorderInv ext mb)
-    (hoff : mb.lastLen = none) (dvars : List MVar) (hd : DvarsOK mb.tbl dvars)
+    (dvars : List MVar) (hd : DvarsOK mb.tbl dvars)
     (lev : Option (List Nat)) (out : B2MOut) (mb' : Mgr)
     (hr : bddToMdd dvars lev mb = (.ok out, mb')) (s : Int) (hs : 0 < ext s.natAbs) :
     ∃ r, out.umap.lookup s.natAbs = some r ∧ out.mdd.tbl.Mem r ∧
       ∀ α, MValid out.mdd.tbl α →
         denM out.mdd.tbl (flip r s) α = denN mb.tbl s (bitsOfInts dvars α) := by
-  have B := bddToMdd_spec ext mb h hoff dvars hd lev out mb' hr
+  have B := bddToMdd_spec ext mb h dvars hd lev out mb' hr
   obtain ⟨r, hr'⟩ := Option.isSome_iff_exists.mp (B.mapped.2 s.natAbs hs)
   obtain ⟨hmu, hmr, hden⟩ := B.umap s.natAbs r hr'
   refine ⟨r, hr', hmr, ?_⟩
